@@ -14,9 +14,18 @@ import (
 func (eng *Engine) VerifyFunction(fn *ssa.Function, con *Contract) (u *Unit) {
 	pkgShort := strings.TrimPrefix(con.PkgPath, repoModule+"/")
 	name := pkgShort + "." + con.Key()
+	if con.Aspect > 0 {
+		name += "~aspect"
+	}
 	u = NewUnit(eng, name, fn.Pkg.Pkg)
 	u.forProps = con.For
 	u.curFunc = name
+	if o := con.Opts["opaque"]; o != "" {
+		u.opaque = map[string]bool{}
+		for _, f := range strings.Split(o, ",") {
+			u.opaque[strings.TrimSpace(f)] = true
+		}
+	}
 	x := &Executor{u: u}
 	defer func() {
 		if r := recover(); r != nil {
@@ -153,6 +162,17 @@ func (eng *Engine) VerifyFunction(fn *ssa.Function, con *Contract) (u *Unit) {
 		// frame
 		x.frameObligations(fr, con, ws, env, ex, entry, name+suffix)
 	}
+	// vacuity guard: every at-call / at-store clause matched at least one site of the function
+	for k := range con.AtCall {
+		if !u.atMatched["call:"+k] {
+			u.addObl(&Obligation{Name: fmt.Sprintf("%s#atcall:%s:unmatched", name, k), Kind: "vacuity", Fail: "the at-call clause names " + k + ", which this function never calls (the clause would be vacuous)", Clause: "atcall " + k})
+		}
+	}
+	for k := range con.AtStore {
+		if !u.atMatched["store:"+k] {
+			u.addObl(&Obligation{Name: fmt.Sprintf("%s#atstore:%s:unmatched", name, k), Kind: "vacuity", Fail: "the at-store clause names " + k + ", which this function never stores to (the clause would be vacuous)", Clause: "atstore " + k})
+		}
+	}
 	// vacuity guard: some return is reachable
 	if len(exitConds) > 0 {
 		u.addObl(&Obligation{Name: name + "#vacuity:exit", Kind: "vacuity", Expect: "sat", Goal: "(or " + strings.Join(exitConds, " ") + " false)", Clause: "a return is reachable under the preconditions"})
@@ -186,16 +206,14 @@ func (x *Executor) computeFrame(con *Contract, vars map[string]Val, entry *State
 	for _, m := range con.Modifies {
 		switch t := m.(type) {
 		case *ESel:
-			if id, ok := t.X.(*EIdent); ok {
-				if ty := x.lookupTypeName(preEnv, id.Name); ty != nil {
-					_, isS := ty.Underlying().(*types.Struct)
-					_, isI := ty.Underlying().(*types.Interface)
-					if isS || isI {
-						for _, comp := range x.wholeComps(ty, t.Name) {
-							fs.whole[comp] = true
-						}
-						continue
+			if ty := x.typeNameOf(preEnv, t.X); ty != nil {
+				_, isS := ty.Underlying().(*types.Struct)
+				_, isI := ty.Underlying().(*types.Interface)
+				if isS || isI {
+					for _, comp := range x.wholeComps(ty, t.Name) {
+						fs.whole[comp] = true
 					}
+					continue
 				}
 			}
 			if ref, sty, ok := x.lvalRef(preEnv, t.X); ok {
